@@ -324,6 +324,7 @@ func main() {
 	def("maxCompressionOffset", p.constVal("maxCompressionOffset"))
 	def("maxDomainNameWireOctets", p.constVal("maxDomainNameWireOctets"))
 	def("maxCompressionPointers", p.constVal("maxCompressionPointers"))
+	def("maxIncludeDepth", p.constVal("maxIncludeDepth"))
 	def("isDomainNameLenmsg", p.localConst("IsDomainName", "lenmsg"))
 	// label limit: `labelLen >= 1<<6` in packDomainName and IsDomainName must agree
 	op1, v1 := p.cmpConstIn("packDomainName", "labelLen")
